@@ -77,9 +77,7 @@ package yubiagent
 //@   requires agent != nil && c != nil
 //@   requires typeof(agent) == *server ==> (pl(agent) != 0 &&
 //@     (typeof(agent.(*server).ShimAgent) == *shimagent.Server ==> (pl(agent.(*server).ShimAgent) != 0 &&
-//@       forall(i, 0 <= i && i < 40, agent.(*server).ShimAgent.(*shimagent.Server).conds[i] != nil &&
-//@         agent.(*server).ShimAgent.(*shimagent.Server).conds[i].L != nil &&
-//@         mstate(pl(agent.(*server).ShimAgent.(*shimagent.Server).conds[i].L)) == 0))))
+//@       shimagent.condsOK(agent.(*server).ShimAgent.(*shimagent.Server)))))
 //@   modifies all
 //@   ensures [clean-eof] result == nil ==> (reads() >= 1 && ret(yubiagent.read, calls(yubiagent.read) - 1, 1) == io.EOF)
 //@   ensures [one-response-per-request] result == nil ==> responses() == reads() - 1
@@ -88,6 +86,7 @@ package yubiagent
 //@   ensures [reads-come-from-the-peer] forall(i, old(calls(yubiagent.read)) <= i && i < calls(yubiagent.read), arg(yubiagent.read, i, 0) == c)
 //@   loop 1:
 //@     invariant reads() >= 0 && responses() == reads()
+//@     invariant (typeof(agent) == *server && typeof(agent.(*server).ShimAgent) == *shimagent.Server) ==> shimagent.condsOK(agent.(*server).ShimAgent.(*shimagent.Server))
 //@     invariant calls(yubiagent.write) >= old(calls(yubiagent.write)) && calls(agent.ServeAgent) >= old(calls(agent.ServeAgent))
 //@     invariant forall(i, old(calls(yubiagent.write)) <= i && i < calls(yubiagent.write), arg(yubiagent.write, i, 0) == c)
 //@     invariant forall(i, old(calls(yubiagent.read)) <= i && i < calls(yubiagent.read), arg(yubiagent.read, i, 0) == c)
